@@ -8,7 +8,8 @@ CLAIMS['C05'] = dict(
     text='Decides, on every CFG path of every overrider of encryptor::decrypt (found through the class hierarchy) and of session_cookies::load/save, '
          'the code-shape clauses of the property: plain text is written, CBC-decrypted or accepted only after the constant-time MAC comparison succeeded over digest_size bytes; '
          'the expiry copied out of the authenticated plain text is compared with time() before success; every rejected non-empty cookie is cleared; '
-         'configuration cannot reach CBC without a MAC, HMAC keys < 16 bytes throw, a fresh CBC object gets a random IV. Holds for all inputs because it is a path property; '
+         'configuration cannot reach CBC without a MAC, HMAC keys < 16 bytes throw, a fresh CBC object gets a random IV; hmac_cipher::equal is proved exact by abstract interpretation (n=1..3, all byte values of one side); '
+         'the base64url layer of the cookie (alphabet, inverse, size formulas, impossible length rejected) is decided as in C15.R4. Holds for all inputs because these are path properties / exhaustive boxes; '
          'it is a necessary condition of authenticity, not a proof of cryptographic strength.',
     note='Trusted: clang front end, the extractor, the non-mutating-accessor table of vlib/q.py. Not decided: cryptographic strength of HMAC/AES, byte-exact save/load round trip, base64 canonical form.')
 
@@ -136,3 +137,14 @@ CLAIMS['C14'] = dict(
          'Every single-byte validator accepts 0x20-0x7E, rejects C0 controls (except TAB/LF/CR) and DEL, ISO-8859 validators reject 0x80-0x9F, ASCII rejects >= 0x80, one count per byte (thorough: every byte pair is the conjunction). '
          'Every registered encoding name maps to the validator of that code page. The filters copy input bytes only under the html-safe decoder / per-byte validator success for exactly those bytes and return valid input untouched.',
     note='Trusted: the RFC table in rules/C14.py and the abstract domain of vlib/absint.py (a code-point set is compared by endpoints and cardinality on each box). Not decided: iconv/ICU fall-back path (not compiled in), multi-byte non-UTF-8 code pages, the loop of utf8::validate beyond "one count per decoded sequence".')
+
+CLAIMS['C15'] = dict(
+    category='other',
+    engine='cppcms-facts + vlib/absint (abstract interpreter) + vlib rules',
+    technique='static analysis: abstract interpretation of the codec sources per input-byte box against the standard tables; call-graph routing rules',
+    text='Exhaustive per byte (all 256 values by boxes): both util::escape overloads emit exactly the five entities for < > & " \' and every other byte verbatim (the ostream overload forwards); urlencode_impl (all three iterator instantiations) emits unreserved bytes '
+         'verbatim and %hh with lower-case hex, high nibble first, otherwise; urldecode maps every %hh to 16h+l, + to space and other bytes to themselves, so decode(encode(b)) = b for every byte; the base64url alphabet is the 64 RFC 4648 section 5 characters, '
+         'encode_8_to_6 is its inverse, bencode stays inside the alphabet for all data bytes and agrees with RFC 4648 / round-trips on the 6-bit-group boundary values, encoded_size/decoded_size are exact for 0..63 and are case splits on the residue, '
+         'an impossible length is rejected before the buffer sized by decoded_size is filled. Routing: the escape / urlencode stream filters forward their whole range to util::escape / util::urlencode with no other output, base64 filter uses b64url::encode, '
+         'every form-widget output of user-controlled text is wrapped in util::escape / filters::escape.',
+    note='The per-byte clauses are exhaustive; the block codec is exhaustive for alphabet closure and sampled on bit-group representatives for value equality; the routing clause is structural. Not decided: HTML un-escape inverse (no decoder in the tree), js escape filter.')
